@@ -48,6 +48,7 @@ pub struct Context {
     pub sweep_prev: Option<GcPtr>,
     pub root_needs_trace: bool,
     pub gray_nonempty: Ghost<bool>,
+    pub hist: Ghost<Seq<Phase>>,      // shim-owned: phases entered, appended only by `switch`
 }
 
 pub open spec fn same_visible(a: &Context, b: &Context) -> bool {
@@ -58,13 +59,30 @@ pub open spec fn same_visible(a: &Context, b: &Context) -> bool {
 impl Context {
     pub open spec fn gray_remaining_spec(&self) -> bool { self.gray_nonempty@ || self.root_needs_trace }
 
+    // shim for PhaseGuard::switch: every phase change is checked to be an allowed transition and recorded
+    pub fn switch(&mut self, p: Phase)
+        requires
+            p == Phase::Mark ==> old(self).phase == Phase::Sleep,
+            p == Phase::Sweep ==> old(self).phase == Phase::Mark && !old(self).gray_remaining_spec(),
+            p == Phase::Sleep ==> old(self).phase == Phase::Sweep && old(self).sweep is None,
+            p != Phase::Drop,
+        ensures
+            final(self).phase == p, final(self).hist@ == old(self).hist@.push(p),
+            final(self).metrics == old(self).metrics, final(self).all == old(self).all, final(self).sweep == old(self).sweep,
+            final(self).sweep_prev == old(self).sweep_prev, final(self).root_needs_trace == old(self).root_needs_trace,
+            final(self).gray_nonempty == old(self).gray_nonempty,
+    {
+        self.phase = p;
+        proof { self.hist@ = self.hist@.push(p); }
+    }
+
     // step contracts at the granularity the driver needs (the full relations are proved elsewhere)
     #[verifier::external_body]
     fn mark_one(&mut self) -> (r: ControlFlow<()>)
         requires old(self).phase == Phase::Mark
         ensures
             final(self).phase == old(self).phase, final(self).all == old(self).all, final(self).sweep == old(self).sweep, final(self).sweep_prev == old(self).sweep_prev,
-            (r is Break) == !old(self).gray_remaining_spec(),
+            (r is Break) == !old(self).gray_remaining_spec(), final(self).hist == old(self).hist,
             r is Break ==> same_visible(old(self), final(self)),
             // marking frees nothing and allocates nothing; with zero factors it cannot pay debt
             final(self).metrics.a@.total == old(self).metrics.a@.total, final(self).metrics.a@.debits_pos == old(self).metrics.a@.debits_pos,
@@ -76,7 +94,7 @@ impl Context {
         requires old(self).phase == Phase::Sweep
         ensures
             final(self).phase == old(self).phase, final(self).root_needs_trace == old(self).root_needs_trace, final(self).gray_nonempty@ == old(self).gray_nonempty@,
-            (r is Break) == (old(self).sweep is None),
+            (r is Break) == (old(self).sweep is None), final(self).hist == old(self).hist,
             r is Break ==> final(self).sweep is None && final(self).metrics.a@ == old(self).metrics.a@,
             // a sweep step may release a block (total can only go down); debits unchanged
             final(self).metrics.a@.total <= old(self).metrics.a@.total, final(self).metrics.a@.debits_pos == old(self).metrics.a@.debits_pos,
@@ -101,6 +119,9 @@ impl Context {
             (run_until == RunUntil::Stop && stop == Stop::AtSweep && old(self).phase != Phase::Sweep) ==> final(self).phase == Phase::Sweep,
             // finish_cycle always ends Sleeping
             (run_until == RunUntil::Stop && stop == Stop::FinishCycle) ==> final(self).phase == Phase::Sleep,
+            // C08: history is only extended; with FinishCycle, Sleep can only be the last phase entered in this call
+            old(self).hist@.len() <= final(self).hist@.len(), final(self).hist@.subrange(0, old(self).hist@.len() as int) =~= old(self).hist@,
+            stop == Stop::FinishCycle ==> forall|i: int| old(self).hist@.len() <= i < final(self).hist@.len() - 1 ==> final(self).hist@[i] != Phase::Sleep,
             // C09(a): debt-driven calls
             (run_until == RunUntil::PayDebt && stop == Stop::Full) ==> !final(self).metrics.debt_pos(),
             (run_until == RunUntil::PayDebt && stop == Stop::FinishCycle) ==> !final(self).metrics.debt_pos() || final(self).phase == Phase::Sleep,
